@@ -81,12 +81,15 @@ class Suite:
     implementation's observations, and a rule counting non-trivial cases."""
 
     def __init__(self, name, domain, ops, monitor=None, stats=None, resets=("new",), args=(), compare=True,
-                 exhaustive=False):
+                 exhaustive=False, retry_args=None):
         self.name, self.domain, self.ops = name, domain, ops
         self.monitor, self.stats = monitor, stats or {}
         self.resets, self.args = resets, list(args)
         self.compare = compare
         self.exhaustive = exhaustive
+        # timing-sensitive suites (goroutines observed after a quiescence wait): a session that shows a problem is
+        # re-run on its own with these harness arguments (a much longer quiescence wait) before it is believed
+        self.retry_args = retry_args
 
     def session_of(self, idx):
         start = idx
@@ -336,6 +339,27 @@ class Check:
             ob.ok = False
             ob.detail = st
             impl = impl + ["<no-output>"] * (len(suite.ops) - len(impl))
+        model = None
+        if suite.compare and self.model_ok:
+            model, mst = self._exec(MODEL_BIN, suite.domain, suite.args, suite.ops, timeout)
+            rec["model_status"] = mst
+            if mst != "ok" or len(model) != len(suite.ops):
+                ob.ok = False
+                ob.detail = f"model driver {mst}, {len(model)} of {len(suite.ops)} lines"
+                self.broken.append((f"correspondence {suite.name}", ob.detail))
+                model = None
+        if suite.retry_args:
+            suspects = set()
+            if suite.monitor:
+                suspects.update(i for i, _, _ in suite.monitor(suite.ops, impl))
+            if model is not None:
+                suspects.update(i for i in range(len(suite.ops)) if impl[i] != model[i])
+            sessions = sorted({suite.session_of(i) for i in suspects})
+            rec["retried_sessions"] = len(sessions)
+            for (s0, e0) in sessions[:8]:
+                sub, st2 = self._exec(HARNESS_BIN, suite.domain, list(suite.args) + list(suite.retry_args), suite.ops[s0:e0] + ["bye"], timeout)
+                if len(sub) >= e0 - s0:
+                    impl[s0:e0] = sub[:e0 - s0]
         # monitors judge the implementation alone
         nviol = 0
         if suite.monitor:
@@ -351,13 +375,7 @@ class Check:
                 ob.ok = False
                 ob.detail = "model driver unavailable (lake build failed)"
             else:
-                model, mst = self._exec(MODEL_BIN, suite.domain, suite.args, suite.ops, timeout)
-                rec["model_status"] = mst
-                if mst != "ok" or len(model) != len(suite.ops):
-                    ob.ok = False
-                    ob.detail = f"model driver {mst}, {len(model)} of {len(suite.ops)} lines"
-                    self.broken.append((f"correspondence {suite.name}", ob.detail))
-                else:
+                if model is not None:
                     diffs = [i for i in range(len(suite.ops)) if impl[i] != model[i]]
                     rec["disagreements"] = len(diffs)
                     if diffs and ob.ok is None:
